@@ -22,6 +22,8 @@ pub struct Rw {
     pub nested: Option<(String, String, String)>,
     /// Display bodies (rule R6): write_fmt(format_args!(..)) -> sequence of f.lit(id) / f.disp(&x); `?` dropped; string literals -> ids
     pub display_unit: bool,
+    /// Python wrapper unit: (identifier of the wrapped Rust type -> Inner, float-typed parameter names)
+    pub py_unit: Option<(String, HashSet<String>)>,
 }
 
 /// FNV-1a 64 of the UTF-8 text: identifies a literal piece of output without string reasoning in the verifier
@@ -55,7 +57,7 @@ impl syn::parse::Parse for FmtArgs {
 
 impl Rw {
     pub fn new(ints: HashSet<String>) -> Self {
-        Rw { dims: HashSet::new(), ints, counts: BTreeMap::new(), err: None, rename_self: false, field_methods: Default::default(), field_recv: HashSet::new(), float_unit: false, nested: None, display_unit: false }
+        Rw { dims: HashSet::new(), ints, counts: BTreeMap::new(), err: None, rename_self: false, field_methods: Default::default(), field_recv: HashSet::new(), float_unit: false, nested: None, display_unit: false, py_unit: None }
     }
     fn bump(&mut self, k: &'static str) {
         *self.counts.entry(k).or_insert(0) += 1;
@@ -127,6 +129,19 @@ fn strip_known_generics(path: &mut syn::Path, rw: &mut Rw) {
 
 impl VisitMut for Rw {
     fn visit_type_mut(&mut self, t: &mut Type) {
+        if let Some((inner, _)) = &self.py_unit {
+            if let Type::Path(p) = t {
+                let last = p.path.segments.last().map(|s| s.ident.to_string()).unwrap_or_default();
+                if &last == inner {
+                    *t = parse_quote!(Inner);
+                    return;
+                }
+                if last == "f64" {
+                    *t = parse_quote!(Fl);
+                    return;
+                }
+            }
+        }
         if self.display_unit {
             if let Type::Path(p) = t {
                 let last = p.path.segments.last().map(|s| s.ident.to_string()).unwrap_or_default();
@@ -187,6 +202,33 @@ impl VisitMut for Rw {
                                 return;
                             }
                         }
+                    }
+                }
+            }
+        }
+        if let Some((inner, floats)) = self.py_unit.clone() {
+            // x.into(): identity on a float parameter, otherwise the conversion Inner -> wrapper class (From impl of the class)
+            if let Expr::MethodCall(m) = e {
+                if m.method == "into" && m.args.is_empty() {
+                    let is_float = matches!(&*m.receiver, Expr::Path(p) if p.path.get_ident().map(|i| floats.contains(&i.to_string())).unwrap_or(false));
+                    let r = (*m.receiver).clone();
+                    if is_float {
+                        *e = r;
+                    } else {
+                        *e = parse_quote!(Self::from_inner(#r));
+                    }
+                    self.bump("R10_into");
+                }
+            }
+            // <Dual64>::from_re(..) -> Inner::from_re(..)
+            if let Expr::Path(p) = e {
+                if let Some(q) = &p.qself {
+                    let tn = crate::db::type_last_ident(&q.ty).map(|x| x.0).unwrap_or_default();
+                    if tn == inner && p.path.segments.len() == 1 {
+                        let id = p.path.segments[0].ident.clone();
+                        *e = parse_quote!(Inner::#id);
+                        self.bump("R1_inner_type");
+                        return;
                     }
                 }
             }
